@@ -93,7 +93,7 @@ func fixturesFromEnv(def []string) []string {
 	return out
 }
 
-var c02Fixtures = []string{"flat24", "nest", "tiny", "deep", "samename", "rep3", "collide"}
+var c02Fixtures = []string{"flat24", "nest", "tiny", "deep", "samename", "rep3", "collide", "dupleaf"}
 
 func TestC02(t *testing.T) {
 	cfg := wlCfg{fixtures: fixturesFromEnv(c02Fixtures), maxRecs: envInt("VERIF_MAXRECS", 100), gen: vt.DefaultGen}
